@@ -658,7 +658,7 @@ def c15(tier, rng):
         body = ', '.join(entry() for _ in range(k)) + (',' if k and lr.chance(1, 6) else '')
         return ('[' + body + ']') if x < 7 else ('{' + body + '}')
     leakA = []
-    for _ in range(2500 if tier == 'quick' else 40000):
+    for _ in range(2500 if tier == 'quick' else 6000):
         t = fnode(3)
         pre = lr.choice(['', '', '- ', 'k: ', '? ', '- - ', 'k:\n  - ', '--- '])
         leakA.append(pre + t + '\n')
@@ -674,7 +674,7 @@ def c15(tier, rng):
     if tier == 'quick':
         # every probe against every A would be ~50k pairs: keep all A's, rotate through the probes
         cases = [[a, leak_b[(i + j) % len(leak_b)]] for i, a in enumerate(leak_a) for j in range(6)]
-    N = 20000 if tier == 'quick' else 400000
+    N = 20000 if tier == 'quick' else 80000      # (memory: every case is kept with its events; 1.2 M cases needed 65 GB)
     for _ in range(N):
         k = 2 if pr.chance(8, 10) else pr.randint(3, 4)
         parts = [pr.choice(enders) for _ in range(k - 1)] + [pr.choice(pool)]
@@ -2370,6 +2370,25 @@ def c04(tier, rng):
         elif v in (2, 4) and c[1] == 'P' and c[2] != 'top' and doc.endswith('\n') and not doc[:-1].endswith((' ', '\t', '\n')):
             c = c[:3] + (doc[:-1],) + c[4:]
         rest.append(c + ('buf 16' if v in (1, 4) else 'str 128',))
+    # every way of writing a character as a hex escape: \xXX for the first 256, \uXXXX over the whole plane (stride 16 at the
+    # quick tier, plus every block boundary), \UXXXXXXXX across all planes; several escapes per scalar
+    esc = []
+    step = 16 if tier == 'quick' else 1
+    bmp = sorted(set(range(0, 0x10000, step)) | {b + d for b in range(0, 0x10000, 0x100) for d in (0, 1, 0xFE, 0xFF)} | {0xD7FF, 0xE000})
+    bmp = [cp for cp in bmp if not 0xD800 <= cp <= 0xDFFF]
+    astral = [cp for cp in list(range(0x10000, 0x110000, 0x1000 if tier == 'quick' else 0x40)) + [0x10FFFF, 0x1FFFF, 0xFFFFF]]
+    def chunks(xs, n):
+        return [xs[i:i + n] for i in range(0, len(xs), n)]
+    for ch in chunks(list(range(256)), 16):
+        esc.append((''.join(chr(c) for c in ch), ''.join('\\x%02x' % c for c in ch)))
+    for ch in chunks(bmp, 16):
+        esc.append((''.join(chr(c) for c in ch), ''.join('\\u%04X' % c for c in ch)))
+    for ch in chunks(bmp[::2] + astral, 12):
+        esc.append((''.join(chr(c) for c in ch), ''.join('\\U%08x' % c for c in ch)))
+    for n, (tg_, body) in enumerate(esc):
+        ctx = ('top', 'value', 'flowitem')[n % 3]
+        doc, idx = R.in_context(ctx, '"' + body + '"')
+        lw.append((tg_, 'D', ctx, doc, idx, 'str 128' if n % 2 else 'buf 16'))
     cases = lw + rest
     reqs = [f'evt {k} 0 {hx(d)}' for _, _, _, d, _, k in cases]
     impl = run_impl(reqs)
@@ -2571,6 +2590,17 @@ def c13(tier, rng):
         for _ in range(d):
             v = ('a', [v])
         cases.append((v, 'compact', R.jser(r, v, 'compact')))
+    # every \u escape of the Basic Multilingual Plane that is not a surrogate half (quick: every 8th code point and
+    # every block boundary), upper and lower case hex digits, 128 escapes per text
+    cps = [cp for cp in range(0x20, 0x10000) if not 0xD800 <= cp <= 0xDFFF and cp not in (0x22, 0x5C)]
+    if tier == 'quick':
+        keep = set(range(0x20, 0x10000, 8)) | {b + d for b in range(0, 0x10000, 0x100) for d in (0, 1, 0xFE, 0xFF)} | {0xD7FF, 0xE000, 0xD000, 0xCFFF, 0xFFFE, 0xFFFF, 0xFEFF}
+        cps = [cp for cp in cps if cp in keep]
+    for i in range(0, len(cps), 128):
+        chunk = cps[i:i + 128]
+        v = ('a', [('s', chr(cp)) for cp in chunk])
+        fmt = '\\u%04x' if (i // 128) % 2 else '\\u%04X'
+        cases.append((v, 'compact', '[' + ','.join('"' + (fmt % cp) + '"' for cp in chunk) + ']'))
     reqs = [f'lod y e {hx(t)}' for _, _, t in cases]
     impl = run_impl(reqs)
     nm = len(reqs) if tier == 'thorough' else 10000
